@@ -334,27 +334,17 @@ func runAsm(m *model.Model, s *ob.Set) {
 		}
 	}
 
-	// ---- A5: lane congruence of the unrolled bodies
-	for _, lc := range []struct {
-		name, u string
-		uEnd    []string
-		l       string
-		lEnd    []string
-	}{
-		{"·add10VV", "U1", []string{"V1"}, "L1", []string{"E1"}},
-		{"·sub10VV", "U2", []string{"V2"}, "L2", []string{"E2"}},
-		{"·add10VW", "U3", []string{"V3"}, "L3", []string{"E3"}},
-		{"·sub10VW", "U4", []string{"V4"}, "L4", []string{"E4"}},
-		{"decCpy", "CU", []string{"CV"}, "CLoop", []string{"CE"}},
-	} {
-		t := f.text(lc.name)
-		c := "lanes/" + lc.name
+	// ---- A5: lane congruence of the unrolled bodies. The unrolled loop and the tail loop are
+	// found structurally (backward jumps), not by label name.
+	for _, name := range []string{"·add10VV", "·sub10VV", "·add10VW", "·sub10VW", "decCpy", "decCpyInv"} {
+		t := f.text(name)
+		c := "lanes/" + name
 		if t == nil {
-			s.Bad(R, c, "dec_arith_amd64.s", "TEXT "+lc.name+" not found")
+			s.Bad(R, c, "dec_arith_amd64.s", "TEXT "+name+" not found")
 			continue
 		}
-		why := laneCongruent(t, lc.u, lc.uEnd, lc.l, lc.lEnd)
-		s.Check(why == "", R, c, rel(t), "unrolled body == tail loop x4", why)
+		k, why := laneCongruent(t)
+		s.Check(why == "", R, c, rel(t), fmt.Sprintf("unrolled body == tail loop x%d, index step %d", k, k), why)
 	}
 
 	// ---- A5b: the block-copy helpers may be entered with overlapping source and destination
@@ -386,12 +376,6 @@ func runAsm(m *model.Model, s *ob.Set) {
 		}
 		s.Check(why == "", R, "copy-order/"+hn, rel(t), "loads precede stores in every copy block", why)
 	}
-	// decCpyInv's unrolled body is congruent with its tail loop as well
-	if t := f.text("decCpyInv"); t != nil {
-		why := laneCongruent(t, "CU", []string{"CV"}, "CLoop", []string{"CE"})
-		s.Check(why == "", R, "lanes/decCpyInv", rel(t), "unrolled body == tail loop x4", why)
-	}
-
 	// ---- A6: inlined copies of div10W
 	{
 		ref := f.text("·div10W")
@@ -506,15 +490,78 @@ func isLaneStore(in asmInstr) bool {
 	return in.op == "MOVQ" && len(in.args) == 2 && reLaneMem.MatchString(in.args[1])
 }
 
-// laneCongruent: the unrolled body equals the tail-loop body instantiated for lanes 0..3
-// (offset += 8k; lane register = destination of the lane's load). ALU instructions are
-// compared as one ordered list, loads and stores as ordered lists of their own.
-func laneCongruent(t *asmText, u string, uEnd []string, l string, lEnd []string) string {
-	ub := laneStrip(asmSeg(t, u, uEnd))
-	lb := laneStrip(asmSeg(t, l, lEnd))
-	if len(ub) == 0 || len(lb) == 0 {
-		return fmt.Sprintf("labels %s/%s not found or empty", u, l)
+// asmLoops returns the bodies of the loops of t: instruction ranges that start at a label and end
+// at a jump back to that label.
+func asmLoops(t *asmText) [][]asmInstr {
+	at := map[string]int{}
+	for i, in := range t.instrs {
+		if in.label != "" {
+			at[in.label] = i
+		}
 	}
+	var out [][]asmInstr
+	for i, in := range t.instrs {
+		if in.label != "" || !strings.HasPrefix(in.op, "J") || len(in.args) != 1 {
+			continue
+		}
+		if st, ok := at[in.args[0]]; ok && st < i {
+			var body []asmInstr
+			for _, b := range t.instrs[st+1 : i] {
+				if b.label == "" {
+					body = append(body, b)
+				}
+			}
+			out = append(out, body)
+		}
+	}
+	return out
+}
+
+func countLaneStores(b []asmInstr) int {
+	n := 0
+	for _, in := range b {
+		if isLaneStore(in) {
+			n++
+		}
+	}
+	return n
+}
+
+// laneCongruent: the unrolled body equals the tail-loop body instantiated for lanes 0..K-1
+// (offset += 8k; lane register = destination of the lane's load), and the unrolled loop
+// advances its index by K. ALU instructions are compared as one ordered list, loads and stores
+// as ordered lists of their own. The two loops are the loops of t that store to lanes: the one
+// with the fewest lane stores is the tail loop, the one with the most the unrolled body.
+func laneCongruent(t *asmText) (int, string) {
+	var ubRaw, lbRaw []asmInstr
+	for _, b := range asmLoops(t) {
+		n := countLaneStores(b)
+		if n == 0 {
+			continue
+		}
+		if lbRaw == nil || n < countLaneStores(lbRaw) {
+			lbRaw = b
+		}
+		if ubRaw == nil || n > countLaneStores(ubRaw) {
+			ubRaw = b
+		}
+	}
+	if ubRaw == nil || lbRaw == nil || countLaneStores(ubRaw) == countLaneStores(lbRaw) {
+		return 0, fmt.Sprintf("%s: no pair of an unrolled loop and a tail loop found (loops that store through an indexed address)", t.name)
+	}
+	if countLaneStores(ubRaw)%countLaneStores(lbRaw) != 0 {
+		return 0, fmt.Sprintf("%s: the unrolled loop has %d lane stores, the tail loop %d: not a whole number of lanes", t.name, countLaneStores(ubRaw), countLaneStores(lbRaw))
+	}
+	K := countLaneStores(ubRaw) / countLaneStores(lbRaw)
+	// index step of the unrolled loop
+	for _, in := range ubRaw {
+		if (in.op == "ADDQ" || in.op == "SUBQ") && len(in.args) == 2 && (in.args[1] == "SI" || in.args[1] == "DI") && strings.HasPrefix(in.args[0], "$") {
+			if v, err := strconv.Atoi(in.args[0][1:]); err != nil || v != K {
+				return K, fmt.Sprintf("%s:%d: the unrolled loop handles %d words per iteration but steps %s by %s", t.name, in.line, K, in.args[1], in.args[0])
+			}
+		}
+	}
+	ub, lb := laneStrip(ubRaw), laneStrip(lbRaw)
 	tailReg := ""
 	for _, in := range lb {
 		if isLaneLoad(in) {
@@ -534,7 +581,7 @@ func laneCongruent(t *asmText, u string, uEnd []string, l string, lEnd []string)
 		}
 	}
 	var expAlu, expLd, expSt []string
-	for k := 0; k < 4; k++ {
+	for k := 0; k < K; k++ {
 		reg := tailReg
 		if r, ok := laneReg[k]; ok {
 			reg = r
@@ -585,22 +632,22 @@ func laneCongruent(t *asmText, u string, uEnd []string, l string, lEnd []string)
 	}
 	cmp := func(kind string, act, exp []string) string {
 		if len(act) != len(exp) {
-			return fmt.Sprintf("%s: unrolled body has %d %s instructions, four tail iterations have %d", t.name, len(act), kind, len(exp))
+			return fmt.Sprintf("%s: unrolled body has %d %s instructions, %d tail iterations have %d", t.name, len(act), kind, K, len(exp))
 		}
 		for i := range act {
 			if act[i] != exp[i] {
-				return fmt.Sprintf("%s: %s instruction %d of the unrolled body is %q, the tail loop (lane %d) has %q", t.name, kind, i+1, act[i], i*4/len(act), exp[i])
+				return fmt.Sprintf("%s: %s instruction %d of the unrolled body is %q, the tail loop (lane %d) has %q", t.name, kind, i+1, act[i], i*K/len(act), exp[i])
 			}
 		}
 		return ""
 	}
 	if w := cmp("arithmetic", actAlu, expAlu); w != "" {
-		return w
+		return K, w
 	}
 	if w := cmp("load", actLd, expLd); w != "" {
-		return w
+		return K, w
 	}
-	return cmp("store", actSt, expSt)
+	return K, cmp("store", actSt, expSt)
 }
 
 // divSeq extracts the instruction sequence from "SARQ $63, BX" to the final "SUBQ BX, DX".
